@@ -822,6 +822,7 @@ def train_td7(
             episode_idx += 1
 
             if total_episodes is not None and episode_idx >= total_episodes:
+                step += 1
                 break
 
             if logger is not None:
